@@ -62,6 +62,20 @@ CHECKS = {
         note="The playground is a native derivation of wasm/src/lib.rs (build.rs drops the three wasm-only lines and shims ansi_to_html::convert to the identity); wasm-specific memory and stack code is not executed.",
         design="DESIGN.md §4 C14",
     ),
+    "C15": dict(
+        engine="procspec",
+        technique="runtime monitoring: an echoing helper child reports argv/env/cwd/stdin to a side file and leaves a spawn marker; compared with the generator's own record of the builder calls; caps probed at limit-1/limit/limit+1",
+        text="Held on N commands: the helper child received exactly the program name, argument strings (count and bytes; shell metacharacters, white space, empty and multi-byte strings verbatim, canary arguments never interpreted), working directory, environment overrides (last write per key wins, everything else inherited) and stdin bytes that the script configured; every cap of ProcessCaps and the timeout bounds reject exactly above the limit and accept at and below it; commands with NUL bytes, `=` in a key, empty program/cwd/key, or any command under allow_process=false are refused with the matching runtime error and leave no spawn marker.",
+        note="Assumptions about points the property does not fix (empty arguments allowed, what counts towards each cap, double faults) are listed in evidence.assumptions.",
+        design="DESIGN.md §4 C15",
+    ),
+    "C16": dict(
+        engine="proccap",
+        technique="runtime monitoring with schedule perturbation: position-coded child output checked against the plan, pid liveness after errors, and an event-log monitor (hooked runner events, injected delays at five points) that measures which reader/wait-loop interleavings were actually observed",
+        text="Held on N runs over all nine stdout/stderr policy pairs x {under, at, over cap} x exit codes, chunk sizes around the 8 KiB read and 64 KiB pipe sizes, child-side sleeps/linger/early close and injected delays in the reader threads, the poll loop and before the join: a success carries exactly the bytes written to that stream and nothing of the other; over-cap output, invalid UTF-8 and a child running past its timeout end with the corresponding runtime error and the child is gone afterwards; exit codes are reported exactly; non-captured streams read as null. The evidence reports the distinct interleaving signatures seen; the run is declared broken (exit 3) unless both 'exit seen before overflow raised' and 'overflow seen by the wait loop' occurred.",
+        note="Kernel scheduling is perturbed, not enumerated. Timeouts used with finishing children are >= 30 s; the band around the timeout is never generated. Process trees (grandchildren holding the pipe) are not generated.",
+        design="DESIGN.md §4 C16",
+    ),
     "C04": dict(
         engine="sem",
         technique="runtime monitoring: generated scope-heavy programs with site-unique values against a reference interpreter with real lexical closures",
